@@ -14,6 +14,5 @@ def run(ctx):
                          "(creation prefix x version x MaxFree free events); distinct = (version, kinds of the "
                          "events that differ between the state sets, resolved state)")
     ctx.notes["plans"] = [list(p) for p in room.plans(ctx.tier)]
-    recs = room.generate(ctx)
-    ctx.replay_and_compare("c10", recs)
+    room.generate(ctx, on_batch=lambda recs: ctx.replay_and_compare("c10", recs))
     room.record_and_validate(ctx, 1500 if ctx.tier == "quick" else 10000)
